@@ -945,3 +945,115 @@ from .engine import Env  # noqa: E402
 class EntryEqHash(EqHashRelational):
     cls = 'PyTreeEntry'
     function = 'PyTreeEntry.__hash__'
+
+
+# ======================================================================================================================
+# C12: registry.pytree_node_registry_get(None, namespace=N) - the whole-table view: N shadows the global namespace
+
+from .engine import MapV  # noqa: E402
+
+h_type = z3.Function('handler_type', Ref, Ref)
+h_ns = z3.Function('handler_namespace', Ref, Str)
+handler_at = z3.Function('registry_values_at', Int, Ref)
+
+
+@pycontract
+class RegistryGetTable(PyContract):
+    """register_pytree_node.get(None, namespace=N): for every type t the returned dict holds the handler registered for
+    (N, t) if there is one, else the handler registered for t in the global namespace, else nothing - whatever the order in
+    which the two were registered (the order of _NODETYPE_REGISTRY.values()); dict / defaultdict are overridden exactly when
+    the namespace is in insertion-ordered mode.  Precondition of this contract: cls is None (the table view).
+    Registry invariant assumed (established by register_pytree_node, proved above): at most one handler per (namespace, type)."""
+    module = 'optree/registry.py'
+    function = 'pytree_node_registry_get'
+
+    def setup(self, eng, st, fn):
+        st.env.vars['cls'] = PYNONE
+        st.env.vars['namespace'] = z3.Const('namespace', Ref)
+        self.H = z3.Int('number_of_handlers')
+        st.facts.append(self.H >= 0)
+        i, j = z3.Ints('i!ri j!ri')
+        inr = lambda k: z3.And(0 <= k, k < self.H)
+        st.facts.append(z3.ForAll([i, j], z3.Implies(z3.And(inr(i), inr(j), i != j),
+                                                     z3.Or(h_type(handler_at(i)) != h_type(handler_at(j)),
+                                                           h_ns(handler_at(i)) != h_ns(handler_at(j))))))
+        self.ordered = z3.Bool('namespace_is_insertion_ordered')
+        self.t_dict, self.t_ddict = z3.Consts('type_dict type_defaultdict', Ref)
+        st.facts.append(self.t_dict != self.t_ddict)
+
+    def global_name(self, eng, st, name):
+        if name == '_NODETYPE_REGISTRY':
+            return OpaqueV('mirror')
+        if name == 'namedtuple':
+            return z3.Const('namedtuple_factory', Ref)
+        if name == 'dict':
+            return self.t_dict
+        if name == 'defaultdict':
+            return self.t_ddict
+        if name in ('_DICT_INSERTION_ORDERED_REGISTRY_ENTRY', '_DEFAULTDICT_INSERTION_ORDERED_REGISTRY_ENTRY'):
+            return z3.Const(name, Ref)
+        return super().global_name(eng, st, name)
+
+    def attribute(self, eng, st, base, attr):
+        if is_z3(base) and base.sort() == Ref and attr == 'type':
+            return h_type(base)
+        if is_z3(base) and base.sort() == Ref and attr == 'namespace':
+            return h_ns(base)
+        return None
+
+    def isinstance(self, eng, st, obj, cls):
+        return None
+
+    def equal(self, eng, st, a, b):
+        # namespace strings: the parameter is a Python object, handler namespaces and literals are strings
+        def as_str(x):
+            if is_z3(x) and x.sort() == Str:
+                return x
+            if is_z3(x) and x.sort() == Ref:
+                return str_of(x)
+            return None
+        if is_z3(a) and is_z3(b) and {a.sort(), b.sort()} == {Ref, Str}:
+            return as_str(a) == as_str(b)
+        return None
+
+    def call(self, eng, st, f, args, kwargs, n, stars):
+        line = n.lineno
+        if isinstance(f, BoundV) and isinstance(f.obj, OpaqueV) and f.obj.tag == 'mirror' and f.name == 'values':
+            if 'lock:__REGISTRY_LOCK' not in st.ghost['locks']:
+                eng.oblige(st, 'IV', 'lockset:_NODETYPE_REGISTRY-read-under-__REGISTRY_LOCK', z3.BoolVal(False), line)
+            return [(st, SeqV(self.H, lambda k: handler_at(k)))]
+        if isinstance(f, BoundV) and isinstance(f.obj, OpaqueV) and f.obj.tag == 'module:_C' and f.name == 'is_dict_insertion_ordered':
+            eng.oblige(st, 'III', 'mode-is-asked-for-the-effective-namespace', ns_str(args[0]) == self.eff(st), line)
+            return [(st, self.ordered)]
+        return None
+
+    def eff(self, st):
+        ns = z3.Const('namespace', Ref)
+        return z3.If(ns == GLOBAL_NS, EMPTY, str_of(ns))
+
+    def raises(self, eng, st, entry):
+        ns = z3.Const('namespace', Ref)
+        return {'TypeError': z3.Not(z3.Or(ns == GLOBAL_NS, is_str(ns)))}
+
+    def post(self, eng, st, entry, ret):
+        if not isinstance(ret, MapV):
+            return [('returns-a-dict', z3.BoolVal(False))]
+        N = self.eff(st)
+        t = z3.Const('t!post', Ref)
+        k = z3.Int('k!post')
+        inr = z3.And(0 <= k, k < self.H)
+        named = lambda ty: z3.Exists([k], z3.And(inr, N != EMPTY, h_ns(handler_at(k)) == N, h_type(handler_at(k)) == ty))
+        glob = lambda ty: z3.Exists([k], z3.And(inr, h_ns(handler_at(k)) == EMPTY, h_type(handler_at(k)) == ty))
+        special = z3.And(self.ordered, z3.Or(t == self.t_dict, t == self.t_ddict))
+        v = ret.val(t)
+        return [('lock-released', z3.BoolVal(st.ghost['locks'] == ())),
+                ('holds-exactly-the-types-registered-globally-or-in-the-namespace',
+                 z3.Implies(z3.Not(special), ret.has(t) == z3.Or(named(t), glob(t)))),
+                ('namespace-entry-shadows-the-global-one',
+                 z3.Implies(z3.And(z3.Not(special), named(t)), z3.And(h_ns(v) == N, h_type(v) == t))),
+                ('otherwise-the-global-entry',
+                 z3.Implies(z3.And(z3.Not(special), z3.Not(named(t)), glob(t)), z3.And(h_ns(v) == EMPTY, h_type(v) == t))),
+                ('dict-entries-overridden-exactly-in-insertion-ordered-mode',
+                 z3.Implies(self.ordered, z3.And(ret.has(self.t_dict), ret.has(self.t_ddict),
+                                                 ret.val(self.t_dict) == z3.Const('_DICT_INSERTION_ORDERED_REGISTRY_ENTRY', Ref),
+                                                 ret.val(self.t_ddict) == z3.Const('_DEFAULTDICT_INSERTION_ORDERED_REGISTRY_ENTRY', Ref))))]
